@@ -135,6 +135,12 @@ class World(WsWorld):
         return None
 
     def limit_on_write(self, conn, data):
+        head = bytes(data[:12])
+        if conn.decided is None and head.startswith(b"HTTP/1.1 ") and head[9:12] not in (b"101", b"503"):
+            # every client of this mode sends a valid request: the only refusal there can be is the connection limit's
+            conn.decided = "error"
+            self.run.violate(self.P + ".accept-iff-valid", "valid-request-rejected:limit-mode:%s" % head[9:12].decode("ascii", "replace"),
+                             "connection %d: %r" % (conn.k, bytes(data[:80])))
         if conn.decided is None and bytes(data[:12]) == b"HTTP/1.1 503":
             live = self.live()
             conn.decided = "refuse"
